@@ -306,6 +306,10 @@ class IndexBackend(ArraySchemaBackend):
         error_handler = ErrorHandler(lazy)
 
         if schema.coerce:
+            if not inplace:
+                # index coercion assigns the index of the object: work on a
+                # copy unless asked to validate in place
+                check_obj = check_obj.copy()
             try:
                 check_obj.index = schema.coerce_dtype(check_obj.index)
             except SchemaError as exc:
@@ -463,6 +467,10 @@ class MultiIndexBackend(DataFrameSchemaBackend):
         :returns: validated DataFrame or Series.
         """
         if schema.coerce:
+            if not inplace:
+                # index coercion assigns the index of the object: work on a
+                # copy unless asked to validate in place
+                check_obj = check_obj.copy()
             check_obj.index = self.__coerce_index(check_obj, schema, lazy)
 
         # Prevent data type coercion when the validate method is called because
